@@ -176,7 +176,7 @@ class Alarm:
 
 
 class Summary:
-    __slots__ = ("ret", "alarms", "returns", "sites", "discharged", "outcomes", "hull", "n_out")
+    __slots__ = ("ret", "alarms", "returns", "sites", "discharged", "outcomes", "hull", "n_out", "err_pure")
 
     def __init__(self):
         self.ret = None
@@ -187,6 +187,7 @@ class Summary:
         self.outcomes = []   # [(return value, facts)] per accepting path (deduplicated, bounded)
         self.hull = None     # facts that hold on every returning path (interval hull)
         self.n_out = 0
+        self.err_pure = []   # Err-only returns reached without any decision on input-derived data: [(return loc, last decision loc)]
 
 
 PANIC_FNS = ("core::panicking::panic", "core::panicking::panic_fmt", "core::panicking::panic_display",
@@ -339,7 +340,7 @@ class Analyzer:
             return const(v)
         ty = c.get("ty", "")
         d = c.get("def") or ""
-        if "pbytes" in c and "RangeInclusive<usize>" in ty:
+        if "pbytes" in c and ("RangeInclusive<usize>" in ty or "::Range<usize>" in ty):
             raw = bytes.fromhex(c["pbytes"])
             if len(raw) >= 16:
                 lo = int.from_bytes(raw[0:8], "little")
@@ -937,7 +938,7 @@ def _analyze(self, fn, args, chain=(), subst=None, facts=None):
                         nv["s"] = ("hv", fn.id, b, l, self._inst)
                         self._made_tag = True
                     st[l] = nv
-        fp = (b, tctrl, tuple(sorted(((k, freeze(v)) for k, v in st.items() if isinstance(k, int)), key=lambda x: x[0])),
+        fp = (b, tctrl, bool(st.get("#tc")), st.get("#sw"), tuple(sorted(((k, freeze(v)) for k, v in st.items() if isinstance(k, int)), key=lambda x: x[0])),
               tuple(sorted((repr(k), v) for k, v in (st.get("#facts") or {}).items())))
         if fp in seen:
             continue
@@ -1008,7 +1009,10 @@ def _analyze(self, fn, args, chain=(), subst=None, facts=None):
             summ.n_out += 1
             is_err_only = rv0["k"] == "enum" and set(rv0["v"]) == {1} and (fn.get("output") or "").startswith("core::result::Result<")
             if is_err_only:
-                pass  # facts that hold on the accepting paths are what callers continue with after `?`
+                # facts that hold on the accepting paths are what callers continue with after `?`
+                if not st.get("#tc") and not chain and len(summ.err_pure) < 16:
+                    sw = st.get("#sw")
+                    summ.err_pure.append((fn.loc(b, "T"), fn.loc(sw, "T") if sw is not None else None))
             elif summ.hull is None:
                 summ.hull = dict(fc)
             else:
@@ -1023,13 +1027,20 @@ def _analyze(self, fn, args, chain=(), subst=None, facts=None):
             dl = op_local(t["d"], pure=True)
             ntc = taint_of(dv) or self._cond_taint(fn, st, dl)
             listed = [int(v) for v, _ in t["targets"]]
+            outs_ = []
             for v, tb in t["targets"]:
                 nst = self._branch(fn, st, t, dl, dv, int(v), None)
                 if nst is not None:
-                    push(tb, nst, ntc)
+                    outs_.append((tb, nst))
             nst = self._branch(fn, st, t, dl, dv, None, listed)
             if nst is not None:
-                push(t["otherwise"], nst, ntc)
+                outs_.append((t["otherwise"], nst))
+            for tb, nst in outs_:
+                if ntc:
+                    nst["#tc"] = True
+                elif len(outs_) > 1:
+                    nst["#sw"] = b
+                push(tb, nst, ntc)
         elif k == "assert":
             self._assert(fn, st, b, t, summ, chain2, tctrl)
             cl = op_local(t["cond"], pure=True)
